@@ -623,6 +623,8 @@ def gen_block(rng):
     case = {'kind': 'block', 'block': block, 'lines': gen_lines(rng),
             'form': rng.choice(['list', 'list', 'string', 'pieces', 'headed', 'comment', 'nested']),
             'how': rng.choice(['ctor', 'ctor', 'setter', 'setter-bad', 'inplace', 'handed-over'])}
+    if block in ('namespace', 'struct', 'class'):
+        case['subclassed'] = rng.random() < 0.3
     if block == 'namespace':
         case['ids'] = [rng.choice(NS_IDS) for _ in range(rng.choice([0, 1, 1, 2, 2, 3, 4]))]
         case['ids_via'] = rng.choice(['list', 'NamespaceIds', 'dot', 'colons', 'sum', 'sum'])
@@ -673,6 +675,10 @@ def check_block(case):
     from dznpy.scoping import NamespaceIds, ns_ids_t  # pylint: disable=import-outside-toplevel
     viols, counts = [], {}
     block, lines = case['block'], list(case['lines'])
+    # every third scope block is made from the caller's own subclass of the library class
+    sub = bool(case.get('subclassed'))
+    Struct, Class = (common.derived(G.Struct), common.derived(G.Class)) if sub else (G.Struct, G.Class)
+    Namespace = common.derived(G.Namespace) if sub else G.Namespace
 
     def bump(key, n=1):
         counts[key] = counts.get(key, 0) + n
@@ -684,6 +690,8 @@ def check_block(case):
            'nontrivial': bool(lines or case.get('ids') or case.get('includes'))}
     try:
         if block in ('namespace', 'struct', 'class'):
+            if sub:
+                bump('scope_blocks_made_from_a_subclass')
             how = case['how']
             first = build_tb(lines if how == 'ctor' else case.get('old_lines', []), case['form'])
             if block == 'namespace':
@@ -700,18 +708,18 @@ def check_block(case):
                     derived = (NamespaceIds([]) + nsi) if len(lines) % 2 else (nsi + NamespaceIds([]))
                     if len(ids) % 2:
                         derived += NamespaceIds(['v2'])
-                obj = G.Namespace(nsi, first) if first.lines or how != 'ctor' or ids else \
-                    G.Namespace(nsi)
+                obj = Namespace(nsi, first) if first.lines or how != 'ctor' or ids else \
+                    Namespace(nsi)
             else:
-                obj = (G.Struct if block == 'struct' else G.Class)(case['name'], first)
+                obj = (Struct if block == 'struct' else Class)(case['name'], first)
             if how == 'inplace':
                 # no initial contents; filled through the getter - and nobody else may see it
-                obj = G.Namespace(nsi) if block == 'namespace' else \
-                    (G.Struct if block == 'struct' else G.Class)(case['name'])
+                obj = Namespace(nsi) if block == 'namespace' else \
+                    (Struct if block == 'struct' else Class)(case['name'])
                 for line in lines:
                     obj.contents.append(line)
                 bump('contents_filled_in_place')
-                for cls_name, fresh in (('namespace', G.Namespace(ns_ids_t(['Other']))),
+                for cls_name, fresh in (('namespace', Namespace(ns_ids_t(['Other']))),
                                         ('struct', G.Struct('Other')), ('class', G.Class('Other'))):
                     if fresh.contents.lines:
                         out('fresh-block-shares-contents-with-another',
@@ -722,8 +730,8 @@ def check_block(case):
                 # scope block sees that (aliasing) or not (defensive copy) is its business, but
                 # it cannot depend on how much the block held at hand-over: none or one line
                 def make(tb):
-                    return G.Namespace(nsi, tb) if block == 'namespace' else \
-                        (G.Struct if block == 'struct' else G.Class)(case['name'], tb)
+                    return Namespace(nsi, tb) if block == 'namespace' else \
+                        (Struct if block == 'struct' else Class)(case['name'], tb)
                 some, none = build_tb(lines[:1], 'list'), build_tb([], 'list')
                 obj_some, obj = make(some), make(none)
                 for line in lines[1:]:
@@ -762,7 +770,7 @@ def check_block(case):
                 if not len(ids) % 2:
                     derived += NamespaceIds(['v2'])
                 bump('namespace_named_next_to_a_sum_that_was_extended_in_place')
-                check_scoped_block(dict(case, ids=ids + ['v2']), [], str(G.Namespace(derived)),
+                check_scoped_block(dict(case, ids=ids + ['v2']), [], str(Namespace(derived)),
                                    out, bump)
             text = str(obj)
             if str(obj) != text:
@@ -1354,6 +1362,7 @@ def main(tier: str) -> int:
                 'contents_handed_over_then_filled', 'descriptions_completed_in_place_after_rendering',
                 'default_parameter_list_extended_in_place',
                 'namespace_named_next_to_a_sum_that_was_extended_in_place',
+                'scope_blocks_made_from_a_subclass',
                 'tus_compiled', 'classes_compiled', 'compiler_invocations_g++')
     for _item, res in run.pmap(_worker, items, chunksize=1, timeout=900):
         absorb_batch(run, res)
